@@ -349,6 +349,17 @@ def gen_cases(rng, tier):
                     case["noise"] = {"dist": "gauss", "N": N, "seed": rng.getrandbits(32), "mu": 0.0, "sigma": 0.5, "scale": sc}
                     case["input"] = "electrical_signal"
                 cases.append(case)
+    # directed: high resolution combined with big glitches (10x ... 1e5x the full-scale range, both sides): the glitches must
+    # saturate at the end codes whatever their size (40000 samples: the 99.99 % range leaves out exactly the three glitches)
+    for nb in [8, 10, 11, 12]:
+        for ot in ["n", "v"]:
+            N = 40000
+            m = rng.sample([10, 37, 150, 600, 5000, 1e5], 3)
+            spec = {"dist": "gauss", "N": N, "seed": rng.getrandbits(32), "sigma": 1.0, "mu": 0.0,
+                    "outliers": [[rng.randrange(0, N // 3), -8.0 * m[0]], [rng.randrange(N // 3, 2 * N // 3), 8.0 * m[1]],
+                                 [rng.randrange(2 * N // 3, N), 8.0 * m[2]]]}
+            cases.append({"kind": "adc", "spec": spec, "n": nb, "otype": ot, "exact": False,
+                          "input": rng.choice(["ndarray", "electrical_signal"]), "directed": "big-glitch"})
     # directed: containers carrying a separate noise array comparable to / larger than the signal swing
     for j in range(16 if not thorough else 120):
         N = rng.choice([64, 500, 4096, 9999, 10000, 20000]) if j % 4 else rng.choice([10000, 12345, 20000])
